@@ -40,22 +40,24 @@ class CountingSource(DataSource):
 
 
 class SwitchingSource(CountingSource):
-    """A source that re-binds its own `read` after k frames (a live phase followed by a cached phase - the state pattern
-    auditok's own recorder uses): the handle used for the first phase is stale afterwards and reports end of data."""
+    """A source whose read() delegates to an implementation it re-points after k frames (a live phase followed by a cached
+    phase - the state pattern auditok's own recorder uses).  read itself stays ONE callable: how often the tokenizer looks
+    `source.read` up is its own business (no statement is about that)."""
 
     def __init__(self, frames, switch_after):
         super().__init__(frames)
         self.switch_after = switch_after
-        self.stale_calls = 0
-        self.read = self._read_live
+        self.switched = 0
+        self._impl = self._read_live
+
+    def read(self):
+        return self._impl()
 
     def _read_live(self):
-        if self.reads - self.eos_returns >= self.switch_after and self.read != self._read_live:
-            self.stale_calls += 1
-            return None  # the stale handle: nothing more comes from here
         f = CountingSource.read(self)
         if self.reads - self.eos_returns >= self.switch_after:
-            self.read = self._read_cached
+            self._impl = self._read_cached
+            self.switched = 1
         return f
 
     def _read_cached(self):
@@ -334,13 +336,21 @@ def run(v, params, kind="tuple", delivery="list", on_token=None):
 
         original = make_tokenizer(validator, params, how)
         kind_ = opts["clone"].split("+")[0]
-        if kind_ == "pickle":
-            try:
-                tk = pickle.loads(pickle.dumps(original))
-            except Exception:
-                tk = copy.deepcopy(original)  # a lambda validator cannot be pickled: that is the caller's business
-        else:
-            tk = getattr(copy, kind_)(original)
+        # no statement says that tokenizers or validators can be copied: an object that refuses (a lambda cannot be pickled, a
+        # validator may hold a lock) is used as it is; a copy that CAN be taken has to behave like the original
+        try:
+            if kind_ == "pickle":
+                try:
+                    tk = pickle.loads(pickle.dumps(original))
+                except Exception:
+                    tk = copy.deepcopy(original)
+            else:
+                tk = getattr(copy, kind_)(original)
+        except Exception:
+            tk = original
+            held = None
+            src = CountingSource(frames)
+            return frames, deliver(tk, src, mode, on_token), src
         held = None
         if prior is not None and opts["clone"].endswith("+original-used-first"):
             # the copy is taken from the fresh tokenizer; then the original is used, then the copy
